@@ -404,11 +404,83 @@ def interior_acceptance_all(cases, results, rep):
                      where)
 
 
+def slice_stream(ctx, rep):
+    """products evaluated at ALL variables of a multi-variable factor (`P(**values)`, keywords in any order):
+    the result must be the slice — membership = membership of the full product at the fixed values, and points whose
+    fixed coordinates differ from the values (e.g. swapped) are rejected.  (Partial evaluation as such is C17's; this
+    stream keeps 'a product is the conjunction of its factors' honest for evaluated products.)"""
+    tp = common.use_repo()
+    import torch
+    rng = ctx.rng
+    cases, lines = [], []
+    for idx in range(ctx.scale(30, 300)):
+        g = Gen(rng, params=["s"] if rng.random() < 0.5 else [], allow_rotate=False, allow_translate=False)
+        a = g.solid(rng.choice([1, 2]), "x")
+        gi = Gen(rng, params=[])
+        b = geomgen.Node("prod", None, [], [gi.prim1("s"), gi.prim1("y")])
+        node = geomgen.Node("prod", None, [], [a, b])
+        # values strictly inside the intervals, different from each other by at least 1/4
+        def inside(iv):
+            (l,), (u,) = iv.pfs[0].eval({}), iv.pfs[1].eval({})
+            return l + (u - l) * Fr(rng.randint(2, 6), 8)
+        s0, y0 = inside(b.kids[0]), inside(b.kids[1])
+        if abs(s0 - y0) < Fr(1, 4):
+            continue
+        order = rng.choice([("s", "y"), ("y", "s")])
+        # (1,1) tensors: the generated parameter functions index their arguments like batched tensors
+        vals = {"s": torch.tensor([[float(s0)]]), "y": torch.tensor([[float(y0)]])}
+        try:
+            P = node.to_tp(tp)
+            sliced = P(**{k: vals[k] for k in order})
+        except Exception as e:
+            rep.fail(f"evaluating a product at all variables of its second factor raised {type(e).__name__}: {str(e)[:150]}",
+                     dict(dom=node.describe(), call_order=list(order), values={k: str(v) for k, v in (("s", s0), ("y", y0))}))
+            continue
+        xs = [[Fr(rng.randint(-5 * 16, 5 * 16), 16), Fr(rng.randint(-5 * 16, 5 * 16), 16)] for _ in range(12)]
+        rows = []
+        for x in xs:
+            rows.append(("on", x, s0, y0))
+            rows.append(("swapped", x, y0, s0))
+            rows.append(("off", x, s0 + Fr(1, 8), y0))
+        t = torch.tensor([[float(x[0]), float(x[1]), float(sv), float(yv)] for _, x, sv, yv in rows], dtype=torch.float32)
+        try:
+            res = sliced._contains(tp.spaces.Points(t, node.space(tp))).reshape(-1).tolist()
+        except Exception as e:
+            rep.fail(f"membership of an evaluated product raised {type(e).__name__}: {str(e)[:150]}",
+                     dict(dom=node.describe(), call_order=list(order)))
+            continue
+        dt = node.tokens()
+        ls = [f"contains {ATOL} {RTOL} {BATOL} {dt} {env_tokens({'x': x, 's': [s0], 'y': [y0]})} 0" for x in xs]
+        cases.append((node, order, s0, y0, rows, res, len(lines), len(ls)))
+        lines += ls
+    if not lines:
+        return
+    replies = common.run_driver("C05", lines)
+    for node, order, s0, y0, rows, res, a0, n in cases:
+        rep.case(dict(dom=node.describe(), order=order), True, kind="prod-slice",
+                 sample=dict(expression=node.tokens(), call=f"P({order[0]}=…, {order[1]}=…)", s=str(s0), y=str(y0)))
+        rep.count("mode:prod-slice")
+        full = {}
+        for (kind, x, sv, yv), rl in zip(rows[0::3], replies[a0:a0 + n]):
+            full[tuple(x)] = rl.split()
+        for (kind, x, sv, yv), got in zip(rows, res):
+            b, m = full[tuple(x)]
+            where = dict(dom=node.describe(), expression=node.tokens(), call_order=list(order), fixed=dict(s=str(s0), y=str(y0)),
+                         point=dict(x=[str(v_) for v_ in x], s=str(sv), y=str(yv)))
+            if kind == "on":
+                if b != "none" and Fr(m) > MARGIN and bool(got) != (b == "1"):
+                    rep.fail(f"P({order[0]}=…, {order[1]}=…) answers {bool(got)} for a point of the slice although the full product "
+                             f"{'contains' if b == '1' else 'does not contain'} it at these values (exact evaluation)", where)
+            elif got:
+                rep.fail(f"P({order[0]}=…, {order[1]}=…) accepts a point whose fixed coordinates are ({float(sv)}, {float(yv)}) instead of ({float(s0)}, {float(y0)})", where)
+
+
 def run(ctx, rep, cases=None):
     rep.rule = ("domain expressions generated from the public constructors (depth in input_distribution), parameter-dependent shapes, "
                 "1-3 parameter rows paired row-wise with the query points; queries = random dyadic points + points at relative "
                 "distances 0, ±1e-1, ±1e-2, ±1e-3 from the edges of every primitive; non-trivial = expression has an operation node or "
                 "parameter dependence; distinct = distinct (expression, rows)")
+    fresh = cases is None
     if cases is None:
         cases = [make_case(ctx, i) for i in range(ctx.scale(220, 2500))]
     lines, spans = [], []
@@ -460,6 +532,8 @@ def run(ctx, rep, cases=None):
         boundary_acceptance(cs, rep)
     operand_boundary_all(cases, rep)
     interior_acceptance_all(cases, results, rep)
+    if fresh:
+        slice_stream(ctx, rep)
 
 
 def replay(ctx, obj):
